@@ -287,6 +287,8 @@ def mutate(rng, kind, d):
     def free_change():
         k = rng.choice(FREE_KEYS[kind])
         cur = d['free'][k]
+        if kind == 'relation' and cur is None and k in ('description', 'predicate'):
+            return      # a relation created without them stays that way
         if k in ('confidence',) and kind == 'relation' and (cur is None or cur == 10):
             # left out (the default of create_relation) or the default written out: the same definition
             d['free'][k] = 10 if cur is None else rng.choice([None, None, 1])
